@@ -64,6 +64,18 @@ func envSymlink(path, target string, mtime int64) {
 	verif.Assume(target != "") // symlink(2) refuses an empty target
 	envAdd(path, vNode{kind: vLink, perm: 0777, mtime: mtime, target: target})
 }
+// envDeepDirs: below root, a chain of nested directories all called name with a file "f" at the
+// bottom. The tree is built the way relative operations build it, so the absolute path of its
+// lower part may exceed PATH_MAX.
+func envDeepDirs(root, name string, levels int) {
+	segs := vSegsOf(root)
+	for i := 0; i < levels; i++ {
+		segs = append(vCopy(segs), name)
+		vNodes = append(vNodes, vNode{segs: vCopy(segs), kind: vDir, perm: 0755, mtime: 1000})
+	}
+	vNodes = append(vNodes, vNode{segs: append(vCopy(segs), "f"), kind: vFile, perm: 0644, mtime: 1000, data: "F"})
+}
+
 func envMkfifo(path string) { envAdd(path, vNode{kind: vFifo, perm: 0644, mtime: 1}) }
 func envChdir(path string)  { vCwd = vSegsOf(path) }
 
